@@ -641,9 +641,13 @@ impl<W, R, T> CompilationScope<'_, W, R, T> {
                 {
                     return Ok(XStaticExpr::LiteralInt(whole));
                 }
-                if let Ok(float) = to_parse.parse::<f64>() {
-                    if float.is_finite() {
-                        return Ok(XStaticExpr::LiteralFloat(float));
+                // an integer spelling too large for the literal representation is an error, never a (rounded) float
+                let integer_spelling = to_parse.bytes().all(|c| c.is_ascii_digit());
+                if !integer_spelling {
+                    if let Ok(float) = to_parse.parse::<f64>() {
+                        if float.is_finite() {
+                            return Ok(XStaticExpr::LiteralFloat(float));
+                        }
                     }
                 }
                 Err(CompilationError::InvalidNumberLiteral {
